@@ -5,7 +5,7 @@
 
 use crate::{
     crypto::{ed25519, PublicKey},
-    verif::{hex, unhex, VerifBox},
+    verif::{hex, unhex as crate_unhex, VerifBox},
     PeerId,
 };
 
@@ -22,8 +22,14 @@ impl PeerIdBox {
     }
 }
 
+/// Byte-string arguments are written `0x<hex>` (so that the empty string is a token).
 fn is_hex(s: &str) -> bool {
-    s.len() % 2 == 0 && s.bytes().all(|b| b.is_ascii_hexdigit())
+    s.strip_prefix("0x")
+        .map_or(false, |s| s.len() % 2 == 0 && s.bytes().all(|b| b.is_ascii_hexdigit()))
+}
+
+fn unhex(s: &str) -> Vec<u8> {
+    crate_unhex(&s[2..])
 }
 
 fn parse_err(e: crate::peer_id::ParseError) -> String {
